@@ -1,11 +1,408 @@
 /-
-  C07 — the optimizer preserves program meaning (theorems are added below as they are proved).
--/
-import Zed.Model.OptRewrites
-namespace Zed.Props.C07
-open Zed.Opt
+  C07 — the optimizer preserves program meaning.  Property theorems only.
 
-/-- placeholder while the semantic layer is being built (replaced below). -/
-theorem mergeFiltersSeq_nil : mergeFiltersSeq .nil = .nil := rfl
+  The rewrites are the functions of `Zed.Model.OptRewrites` (tied to the Go optimizer by the
+  structural correspondence: model `optimize before` = real `after`, and by the regenerated
+  classification tables `Zed.Generated.C07`); the meaning of a DAG is `semSeq` of
+  `Zed.Model.OptSem`.  "Same sequence where the program defines an order, same multiset
+  elsewhere" appears as: equality of `semSeq` for rewrites that do not touch a fan-in;
+  `List.Perm` (+ sortedness of both sides) for what reaches the operator after a fan-in; and,
+  for `head`/`tail` (whose result after a combine is a *choice*), refinement: every result of
+  the optimized plan is a result of the original plan under some schedule.
+-/
+import Zed.Proofs.OptLemmas
+import Zed.Proofs.OptLift
+namespace Zed.Props.C07
+open Zed.Opt Zed.Generated.C07
+
+variable {V : Type}
+
+/-! ## mergeFilters -/
+
+/-- Full statement: `∀ I S s ins, semSeq I S (mergeFilters s) ins = semSeq I S s ins`.
+    It is false of the current code (see `not_mergeFilters_sound`): when the first predicate
+    evaluates to an error value the merged filter emits it while the sequence passes it through
+    the second filter.  Proved under `Total I` (no predicate yields an emitted error value), for
+    every DAG (filters are merged inside fork/scatter/mirror/scope/over bodies as well), every
+    interpretation of atoms and operators, every scheduler.  The combiner is read from the
+    regenerated table: with anything but "and" the proof does not go through. -/
+theorem mergeFilters_sound_partial (I : Interp V) (S : Sched V) (hT : Total I) (s : Seq)
+    (ins : List (List V)) : semSeq I S (mergeFilters s) ins = semSeq I S s ins :=
+  walk_sound I S true mergeFiltersSeq (semSeq_mergeFiltersSeq I S hT (by decide)) s ins
+
+/-- the pair law behind it: `where a | where b` = `where a <combiner> b`. -/
+theorem mergeFilters_pair_sound_partial (I : Interp V) (hT : Total I) (a b : Expr) (xs : List V) :
+    filterSem I (.bin mergeFiltersCombiner a b) xs = filterSem I b (filterSem I a xs) := by
+  have : mergeFiltersCombiner = "and" := by decide
+  rw [this]; exact filterSem_and I hT a b xs
+
+/-- witness interpretation: the atom `A` evaluates to the error value 99 on 1, `B` is false on
+    99, nothing is quiet. -/
+def witI : Interp Nat where
+  atom e v := match e with
+    | .lit "A" => if v == 1 then .err 99 else .tt
+    | .lit "B" => if v == 99 then .ff else .tt
+    | _ => .tt
+  quiet _ := false
+  perValue _ v := [v]
+  cmp _ _ a b := compare a b
+  opq _ xs := xs
+  source _ := [1]
+  multi _ ls := ls.flatten
+  over _ _ xs := xs
+
+def witS : Sched Nat where
+  comb ls := ls.flatten
+  comb_single l := by simp
+  comb_perm ls := List.Perm.refl _
+  split _ xs := [xs]
+
+theorem not_mergeFilters_sound :
+    semSeq witI witS (mergeFilters (.cons (.filter (.lit "A")) (.cons (.filter (.lit "B")) .nil))) [[1]] ≠
+    semSeq witI witS (.cons (.filter (.lit "A")) (.cons (.filter (.lit "B")) .nil)) [[1]] := by
+  decide
+
+/-- `Total` is satisfiable (non-vacuity of the `_partial` theorems). -/
+def totI : Interp Nat := { witI with atom := fun _ v => if v % 2 == 0 then .tt else .ff }
+
+example : Total totI := total_of_atom totI (by intro e v w; simp only [totI]; split <;> simp)
+
+/-! ## removePassOps -/
+
+/-- Full statement: `semSeq (removePassSeq s) = semSeq s` for every sequence.  It is false
+    (`not_removePass_sound`): a `pass` has one output, so removing it in front of an operator that
+    reads its parents *separately* (merge, join, a scope) or at the end of a fork branch changes
+    the number of legs — the same effect that makes a join see too many parents after a lifted
+    operator was replaced by `pass` (recorded defect C07:lift:join-parents).  Proved for sequences
+    in which every `pass` is followed by an operator that reads the combine of its parents
+    (`passOK`, decidable). -/
+theorem removePass_sound_partial (I : Interp V) (S : Sched V) (s : Seq) (h : passOK s = true)
+    (hne : dropPass s ≠ .nil) (ins : List (List V)) :
+    semSeq I S (removePassSeq s) ins = semSeq I S s ins := by
+  unfold removePassSeq
+  split
+  · rename_i heq; exact absurd heq hne
+  · exact semSeq_dropPass I S s h ins
+
+example : passOK (.cons .pass (.cons (.head 1) .nil)) = true ∧
+    dropPass (.cons .pass (.cons (.head 1) .nil)) ≠ .nil := by simp [passOK, faninSensitive, dropPass]
+
+/-- a sequence of passes only is replaced by one pass. -/
+theorem removePass_allpass_sound (I : Interp V) (S : Sched V) (ins : List (List V)) :
+    semSeq I S (removePassSeq (.cons .pass (.cons .pass .nil))) ins =
+    semSeq I S (.cons .pass (.cons .pass .nil)) ins := by
+  simp [removePassSeq, dropPass, semSeq, semOp, leafSem, S.comb_single,
+    show removePassEmptySeq = "pass" by decide]
+
+/-- witness: `fork (=> pass => pass) | pass | merge this` over [1,2]: with the pass the merge has one
+    (unsorted) parent, without it two. -/
+theorem not_removePass_sound :
+    let s : Seq := .cons (.fork (.cons (.cons .pass .nil) (.cons (.cons .pass .nil) .nil)))
+      (.cons .pass (.cons (.merge (.this []) false) .nil))
+    semSeq witI witS (removePassSeq s) [[1, 2]] ≠ semSeq witI witS s [[1, 2]] := by
+  simp [removePassSeq, dropPass, semSeq, semOp, semPaths, leafSem, mergeLegs, List.merge, witI, witS, leOf, mergeCmp]
+  decide
+
+/-! ## push-down of the leading filter into the scan -/
+
+/-- Full statement: a scan with pushed-down filter `f` delivers what the scan followed by the
+    filter operator delivers.  False of the current code (`not_pushdown_sound`, recorded defect
+    C07:pushdown:filter-error-value): the scanner keeps a value only when `f` is Bool true, the
+    operator also emits error values.  Proved under `Total I`. -/
+theorem pushdown_sound_partial (I : Interp V) (S : Sched V) (hT : Total I) (f : Expr) (hf : f ≠ .none)
+    (sk : SortKeys) (chain : Seq) (ins : List (List V)) :
+    semSeq I S (.cons (.defaultScan f sk) chain) ins =
+    semSeq I S (.cons (.defaultScan .none sk) (.cons (.filter f) chain)) ins := by
+  simp only [semSeq, semOp, leafSem, S.comb_single]
+  rw [filterSem_eq_keepTrue I hT]
+
+/-- `sourcePathPost` produces exactly that shape for a default scan. -/
+theorem sourcePathPost_defaultScan (pools : Pools) (sk : SortKeys) (f : Expr) (chain : Seq)
+    (hprop : (propagateSortKey pools (.cons (.defaultScan .none sk) (.cons (.filter f) chain)) [[]]).1
+      = .cons (.defaultScan .none sk) (.cons (.filter f) chain)) :
+    sourcePathPost pools (.cons (.defaultScan .none sk) (.cons (.filter f) chain)) =
+      some (.cons (.defaultScan f sk) chain) := by
+  simp [sourcePathPost, hprop, matchFilter, lookupTag, sourceOps, Op.kind]
+
+theorem not_pushdown_sound :
+    semSeq witI witS (.cons (.defaultScan (.lit "A") []) .nil) [] ≠
+    semSeq witI witS (.cons (.defaultScan .none []) (.cons (.filter (.lit "A")) .nil)) [] := by
+  decide
+
+/-! ## lifting into parallel legs (liftIntoParPaths)
+
+    `legs` are the outputs of the parallel paths; `p` is what the fan-in of the original plan
+    delivers (any rearrangement of the legs), `q` what the fan-in of the rewritten plan
+    delivers. -/
+
+/-- an operator appended to a path: `paths[k].Append(op)`. -/
+theorem semSeq_append (I : Interp V) (S : Sched V) : ∀ (s t : Seq) (ins : List (List V)),
+    semSeq I S (s.append t) ins = semSeq I S t (semSeq I S s ins)
+  | .nil, _, _ => rfl
+  | .cons o r, t, ins => by simp only [Seq.append, semSeq]; exact semSeq_append I S r t _
+
+/-- cut / drop / put / rename / yield below a combine (no merge): same multiset.  The per-value
+    function is arbitrary but must be a *function of the value*: an expression calling an
+    aggregate function is not (recorded defect C07:lift:stateful-expr). -/
+theorem lift_pervalue_sound (I : Interp V) (op : Op) (legs : List (List V)) (p q : List V)
+    (hp : p.Perm legs.flatten) (hq : q.Perm (legs.map fun l => l.flatMap (I.perValue op)).flatten) :
+    (p.flatMap (I.perValue op)).Perm q :=
+  flatMap_legs_perm _ legs p q hp hq
+
+/-- a filter below a combine: same multiset (also when it emits error values). -/
+theorem lift_filter_sound (I : Interp V) (e : Expr) (legs : List (List V)) (p q : List V)
+    (hp : p.Perm legs.flatten) (hq : q.Perm (legs.map (filterSem I e)).flatten) :
+    (filterSem I e p).Perm q :=
+  flatMap_legs_perm (filterOut I e) legs p q hp hq
+
+/-- `head n` is copied into the legs *and kept*: every result of the rewritten plan is a result
+    of the original plan for some rearrangement of the legs.  (Without the final head the sizes
+    differ: `lift_head_needs_final_head`.) -/
+theorem lift_head_sound (n : Nat) (legs : List (List V)) (q : List V)
+    (hq : q.Perm (legs.map (List.take (limitOf n))).flatten) :
+    ∃ p : List V, p.Perm legs.flatten ∧ p.take (limitOf n) = q.take (limitOf n) :=
+  head_legs_refines (limitOf n) legs q hq
+
+theorem lift_head_needs_final_head :
+    ∃ (legs : List (List Nat)) (q : List Nat), q.Perm (legs.map (List.take 1)).flatten ∧
+      ∀ p : List Nat, p.Perm legs.flatten → p.take 1 ≠ q :=
+  ⟨[[1], [2]], [1, 2], by decide, by intro p hp h; have := congrArg List.length h; simp at this; omega⟩
+
+theorem lift_tail_sound (n : Nat) (legs : List (List V)) (q : List V)
+    (hq : q.Perm (legs.map (lastN (limitOf n))).flatten) :
+    ∃ p : List V, p.Perm legs.flatten ∧ lastN (limitOf n) p = lastN (limitOf n) q :=
+  tail_legs_refines (limitOf n) legs q hq
+
+/-- the comparator of a single-key ascending `sort k` without flags is the merge comparator of
+    `Merge{k, asc}`. -/
+theorem sortCmp_eq_mergeCmp (I : Interp V) (a : SortArg) (h : a.desc = false) :
+    sortCmp I [a] false false = mergeCmp I a.key a.desc := by
+  funext x y
+  simp [sortCmp, sortCmp.go, mergeCmp, h]
+  cases I.cmp true a.key x y <;> rfl
+
+/-- Full statement: a single-key `sort` below a fan-in may be copied into the legs and replaced
+    by `Merge{key, order}`.  False of the current code for `-r`, `-nulls first` and a descending
+    key (`not_lift_sort_sound`; recorded defects C07:lift:sort-reverse / -nullsfirst / -desc): the
+    merge compares differently from the sort.  Proved for the flag-free ascending sort: same
+    multiset, both in sort order. -/
+theorem lift_sort_sound_partial (I : Interp V) (a : SortArg) (hd : a.desc = false)
+    (hc : LawfulCmp (mergeCmp I a.key a.desc)) (legs : List (List V)) (p : List V)
+    (hp : p.Perm legs.flatten) :
+    let orig := sortSem I [a] false false p
+    let opt := mergeLegs (leOf (mergeCmp I a.key a.desc)) (legs.map (sortSem I [a] false false))
+    orig.Perm opt ∧ SortedBy (sortCmp I [a] false false) orig ∧ SortedBy (sortCmp I [a] false false) opt := by
+  have hs : sortSem I [a] false false = fun l => l.mergeSort (leOf (mergeCmp I a.key a.desc)) := by
+    funext l; simp only [sortSem, sortCmp_eq_mergeCmp I a hd]
+  simp only [hs, sortCmp_eq_mergeCmp I a hd]
+  exact sort_legs_sound hc legs p hp
+
+/-- `liftCase` rewrites exactly the shapes these lemmas speak about (over the regenerated
+    `liftOps` table). -/
+theorem liftCase_filter_shape (pools : Pools) (ps : Seqs) (e : Expr) :
+    (liftCase pools (.fork ps) ps Option.none (.filter e)).map (fun l => (l.par, l.op)) =
+      some (.fork (ps.appendEach (.filter e)), .pass) := by
+  simp [liftCase, lookupTag, liftOps, Op.kind, withPaths]
+
+theorem liftCase_head_shape (pools : Pools) (ps : Seqs) (n : Nat) (f : Option Op) :
+    (liftCase pools (.fork ps) ps f (.head n)).map (fun l => (l.par, l.op)) =
+      some (.fork (ps.appendEach (.head n)), .head n) := by
+  simp [liftCase, lookupTag, liftOps, Op.kind, withPaths]
+
+theorem liftCase_sort_shape (pools : Pools) (ps : Seqs) (a : SortArg) (nf rev : Bool) :
+    (liftCase pools (.fork ps) ps Option.none (.sort [a] nf rev)).map (fun l => (l.par, l.op)) =
+      some (.fork (ps.appendEach (.sort [a] nf rev)), .merge a.key a.desc) := by
+  simp [liftCase, lookupTag, liftOps, Op.kind, withPaths]
+
+/-- witness for `-r`: legs [3,1] and [2] are sorted descending; merged ascending they give
+    2,3,1. -/
+theorem not_lift_sort_sound :
+    let a : SortArg := ⟨.this ["k"], false⟩
+    ¬ SortedBy (sortCmp witI [a] false true)
+      (mergeLegs (leOf (mergeCmp witI a.key a.desc)) [[3, 1], [2]]) := by
+  simp [SortedBy, mergeLegs, List.merge, leOf, mergeCmp, witI, sortCmp, sortCmp.go]
+  decide
+
+/-! ## sort-key analysis over the regenerated tables -/
+
+/-- the order a source declared sorted by `k` delivers, and the order `Merge{k}` produces. -/
+def keyCmp (I : Interp V) (k : SortKey) : V → V → Ordering := mergeCmp I (.this k.key) k.desc
+
+/-- What the optimizer assumes of the operators it does not look into. -/
+structure FrameLaws (I : Interp V) : Prop where
+  /-- `uniq` and `fuse` emit their input order (a sub-sequence resp. a reshaping that does not
+      change how keys compare). -/
+  keep : ∀ (op : Op), (op.kind = "Uniq" ∨ op.kind = "Fuse") → ∀ (c : V → V → Ordering) (xs : List V),
+    SortedBy c xs → SortedBy c (I.opq op xs)
+  /-- a per-value operator the analysis maps key `k` to key `k'` for compares outputs by `k'`
+      as it compared inputs by `k`. -/
+  frame : ∀ (pools : Pools) (op : Op) (k k' : SortKey) (r r' : SortKeys),
+    (op.kind = "Cut" ∨ op.kind = "Drop" ∨ op.kind = "Put" ∨ op.kind = "Rename") →
+    analyzeSortKeys pools op (k :: r) = .ok (k' :: r') →
+    ∀ v w v' w', v' ∈ I.perValue op v → w' ∈ I.perValue op w → keyCmp I k' v' w' = keyCmp I k v w
+  /-- a per-value operator emits at most one value per input. -/
+  single : ∀ (op : Op) (v : V), (I.perValue op v).length ≤ 1
+
+theorem sortedBy_sublist {c : V → V → Ordering} {xs ys : List V} (h : xs.Sublist ys)
+    (hs : SortedBy c ys) : SortedBy c xs := List.Pairwise.sublist h hs
+
+/-- every operator kind the regenerated table classifies as order-preserving ("keep")
+    preserves any order — for a new kind added to that list in the Go source there is no case
+    below, and the proof fails. -/
+theorem sortkey_keep_sound (I : Interp V) (hT : Total I) (hL : FrameLaws I) (op : Op)
+    (hX : ∀ k j, op ≠ .X k j) (hk : (op.kind, "keep") ∈ analyzeOps)
+    (c : V → V → Ordering) (xs : List V) (hs : SortedBy c xs) : SortedBy c (leafSem I op xs) := by
+  simp only [analyzeOps, List.mem_cons, Prod.mk.injEq, List.mem_nil_iff, or_false] at hk
+  cases op
+  all_goals simp [Op.kind] at hk
+  case filter e =>
+    simp only [leafSem]; rw [filterSem_eq_keepTrue I hT]
+    exact sortedBy_sublist (keepTrue_sublist I e xs) hs
+  case pass => simpa [leafSem] using hs
+  case output n => simpa [leafSem] using hs
+  case head n => exact sortedBy_sublist (List.take_sublist _ _) hs
+  case tail n => exact sortedBy_sublist (List.drop_sublist _ _) hs
+  case uniq c' => exact hL.keep (.uniq c') (Or.inl rfl) c xs hs
+  case fuse => exact hL.keep .fuse (Or.inr rfl) c xs hs
+  case X k j => exact absurd rfl (hX k j)
+
+theorem pairwise_flatMap_frame {R R' : V → V → Prop} (f : V → List V) (xs : List V)
+    (hs : xs.Pairwise R) (hsingle : ∀ v, (f v).length ≤ 1)
+    (hframe : ∀ v w v' w', v' ∈ f v → w' ∈ f w → R v w → R' v' w') : (xs.flatMap f).Pairwise R' := by
+  induction xs with
+  | nil => simp
+  | cons v xs ih =>
+    rw [List.pairwise_cons] at hs
+    simp only [List.flatMap_cons, List.pairwise_append]
+    refine ⟨?_, ih hs.2, ?_⟩
+    · have := hsingle v
+      match hfv : f v with
+      | [] => simp
+      | [a] => simp
+      | a :: b :: r => rw [hfv] at this; simp at this
+    · intro a ha b hb
+      rw [List.mem_flatMap] at hb
+      obtain ⟨w, hw, hbw⟩ := hb
+      exact hframe v w a b ha hbw (hs.1 w hw)
+
+/-- cut / drop / put / rename: when the analysis maps key `k` to `k'`, an input sorted by `k`
+    gives an output sorted by `k'` — under the frame assumption on the per-value operators
+    (`FrameLaws.frame`), which is what the analysis presumes of them. -/
+theorem sortkey_frame_sound (I : Interp V) (hL : FrameLaws I) (pools : Pools) (op : Op)
+    (hop : op.kind = "Cut" ∨ op.kind = "Drop" ∨ op.kind = "Put" ∨ op.kind = "Rename")
+    (k k' : SortKey) (r r' : SortKeys) (ha : analyzeSortKeys pools op (k :: r) = .ok (k' :: r'))
+    (xs : List V) (hs : SortedBy (keyCmp I k) xs) :
+    SortedBy (keyCmp I k') (xs.flatMap (I.perValue op)) := by
+  apply pairwise_flatMap_frame (I.perValue op) xs hs (hL.single op)
+  intro v w v' w' hv hw hR
+  rw [hL.frame pools op k k' r r' hop ha v w v' w' hv hw]; exact hR
+
+/-- the direction and null placement under which the output of `sort` is in the order the
+    analysis reports for it (the order a `Merge` on that key produces). -/
+def sortFlagsOK (a : SortArg) (nf rev : Bool) : Bool :=
+  let d := if rev then !a.desc else a.desc
+  (!d && !nf) || (d && nf)
+
+/-- Full statement: the output of a single-key `sort` is in the order `sortKeysOfSort` reports
+    (`analyzeSortKeys` for a Sort), i.e. the order of `Merge{key, order}` and of a source declared
+    with that key.  False for a descending effective order without `-nulls first` and for an
+    ascending one with it (`not_sortkey_sort_sound`): the sort operator places nulls last in both
+    directions, the scan/merge order places them first when descending.  This is the root of the
+    recorded lift:sort-* defects.  Proved under `sortFlagsOK`. -/
+theorem sortkey_sort_sound_partial (I : Interp V) (p : Path) (dsc nf rev : Bool)
+    (hflags : sortFlagsOK ⟨.this p, dsc⟩ nf rev = true)
+    (k : SortKey) (hk : sortKeysOfSort [⟨.this p, dsc⟩] rev = [k])
+    (hc : LawfulCmp (keyCmp I k)) (xs : List V) :
+    SortedBy (keyCmp I k) (sortSem I [⟨.this p, dsc⟩] nf rev xs) := by
+  have hcmp : sortCmp I [⟨.this p, dsc⟩] nf rev = keyCmp I k := by
+    funext x y
+    simp only [sortKeysOfSort, sortKeyOfExpr, fieldOf] at hk
+    split at hk
+    · simp at hk
+    · simp only [List.cons.injEq, and_true] at hk
+      subst hk
+      simp only [sortFlagsOK] at hflags
+      cases rev <;> cases dsc <;> cases nf <;> simp_all [sortCmp, sortCmp.go, keyCmp, mergeCmp]
+      all_goals
+        rename_i heq
+        obtain ⟨_, rfl⟩ := heq
+        simp only [Bool.false_eq_true, if_false, if_true]
+        split <;> simp_all
+  unfold sortSem
+  rw [hcmp]
+  exact mergeSort_sorted hc xs
+
+example : sortFlagsOK ⟨.this ["k"], false⟩ false false = true := by decide
+
+/-- values are optional numbers; null is the greatest or the least value as `nullsMax` says. -/
+def nullI : Interp (Option Nat) where
+  atom _ _ := .tt
+  quiet _ := false
+  perValue _ v := [v]
+  cmp nullsMax _ a b := match a, b with
+    | none, none => .eq
+    | none, some _ => if nullsMax then .gt else .lt
+    | some _, none => if nullsMax then .lt else .gt
+    | some x, some y => compare x y
+  opq _ xs := xs
+  source _ := []
+  multi _ ls := ls.flatten
+  over _ _ xs := xs
+
+/-- witness: `sort k desc` over [1, null] emits 1, null; the order the analysis reports
+    (`k desc` as a merge/scan order) wants null first. -/
+theorem not_sortkey_sort_sound :
+    sortKeysOfSort [⟨.this ["k"], true⟩] false = [⟨true, ["k"]⟩] ∧
+    ¬ SortedBy (keyCmp nullI ⟨true, ["k"]⟩) (sortSem nullI [⟨.this ["k"], true⟩] false false [some 1, none]) := by
+  refine ⟨by decide, ?_⟩
+  have : sortSem nullI [⟨.this ["k"], true⟩] false false [some 1, none] = [some 1, none] := by
+    unfold sortSem
+    apply List.mergeSort_of_pairwise
+    simp [leOf, sortCmp, sortCmp.go, nullI]
+  rw [this]
+  simp [SortedBy, keyCmp, mergeCmp, nullI]
+
+/-- The sort-key analysis as a whole, over every operator kind of the regenerated tables that
+    has a list semantics in the model: if `analyzeSortKeys op in = out` with known `in`/`out`, an
+    input in the order `in` gives an output in the order `out`. -/
+theorem sortkey_analysis_sound_partial (I : Interp V) (hT : Total I) (hL : FrameLaws I) (pools : Pools)
+    (op : Op) (hX : ∀ k j, op ≠ .X k j)
+    (hkind : (op.kind, "keep") ∈ analyzeOps ∨ op.kind = "Cut" ∨ op.kind = "Drop" ∨ op.kind = "Put" ∨ op.kind = "Rename")
+    (k k' : SortKey) (r r' : SortKeys) (ha : analyzeSortKeys pools op (k :: r) = .ok (k' :: r'))
+    (xs : List V) (hs : SortedBy (keyCmp I k) xs) : SortedBy (keyCmp I k') (leafSem I op xs) := by
+  rcases hkind with hkeep | hframe
+  · have hk : k' = k := by
+      have hk2 := hkeep
+      simp only [analyzeOps, List.mem_cons, Prod.mk.injEq, List.mem_nil_iff, or_false] at hk2
+      cases op <;> simp [Op.kind] at hk2 <;>
+        simp_all [analyzeSortKeys, lookupTag, analyzeOps, analyzeInputIndependentOps,
+          analyzeInputIndependentOpsDefault, Op.kind]
+    rw [hk]
+    exact sortkey_keep_sound I hT hL op hX hkeep _ xs hs
+  · have := sortkey_frame_sound I hL pools op hframe k k' r r' ha xs hs
+    cases op <;> simp [Op.kind] at hframe
+    case X kk j => exact absurd rfl (hX kk j)
+    all_goals simpa [leafSem] using this
+
+/-! ## non-vacuity of the hypotheses -/
+
+/-- an interpretation in which all keys compare equal satisfies the frame laws. -/
+def eqI : Interp Nat := { witI with cmp := fun _ _ _ _ => .eq, atom := fun _ _ => .tt }
+
+example : FrameLaws eqI :=
+  ⟨fun _ _ _ _ h => h, fun _ _ _ _ _ _ _ _ _ _ _ _ _ => by simp [keyCmp, mergeCmp, eqI],
+   fun _ _ => by simp [eqI, witI]⟩
+
+example : Total eqI := total_of_atom eqI (by intro e v w; simp [eqI])
+
+theorem natCmp_lawful (d : Bool) : LawfulCmp (fun a b : Nat => if d then compare b a else compare a b) := by
+  constructor
+  · intro a b; cases d <;> simp [Nat.compare_swap]
+  · intro a b c; cases d <;> simp [Nat.compare_eq_gt] <;> omega
+
+example (k : SortKey) : LawfulCmp (keyCmp witI k) := by
+  have h : keyCmp witI k = fun a b : Nat => if k.desc then compare b a else compare a b := by
+    funext a b; simp [keyCmp, mergeCmp, witI]
+  rw [h]; exact natCmp_lawful k.desc
 
 end Zed.Props.C07
